@@ -41,8 +41,65 @@ def pairs : List Float → List (Float × Float)
   | a :: b :: rest => (a, b) :: pairs rest
   | _ => []
 
+/-- `erfsweep b0 n`: the model's `erf` on the `n` consecutive f32 bit patterns from `b0` and on their negations; reply as in
+exec/src/bin/c09.rs: order-independent checksum of all `2n` result bit patterns, `n`, number of arguments where `erf(-x) ≠ -erf(x)` bit
+for bit, number with `|erf| > 1`, first such bit pattern. -/
+def hex8 (n : Nat) : String :=
+  String.ofList ((List.range 8).map fun i => hexChar ((n >>> (4 * (7 - i))) % 16))
+
+structure SweepAcc where
+  h : UInt64 := 0
+  oddBad : Nat := 0
+  boundBad : Nat := 0
+  first : Option Nat := none
+
+def rotl32 (x : UInt64) : UInt64 := (x <<< 32) ||| (x >>> 32)
+
+def erfSweepChunk (b0 n : Nat) : SweepAcc := Id.run do
+  let mut h : UInt64 := 0
+  let mut oddBad : Nat := 0
+  let mut boundBad : Nat := 0
+  let mut first : Option Nat := none
+  for k in [0:n] do
+    let bits := b0 + k
+    let x : Float := (Float32.ofBits (UInt32.ofNat bits)).toFloat
+    let y := (erfFn x : Float)
+    let yn := (erfFn (-x) : Float)
+    let key : UInt64 := (UInt64.ofNat bits + 1) * 0x9E3779B97F4A7C15
+    h := h + (y.toBits ^^^ key) * 0xBF58476D1CE4E5B9 + (yn.toBits ^^^ rotl32 key) * 0x94D049BB133111EB
+    let mut bad := false
+    if yn.toBits != (-y).toBits then
+      oddBad := oddBad + 1
+      bad := true
+    if !(y.abs <= 1.0) || !(yn.abs <= 1.0) then
+      boundBad := boundBad + 1
+      bad := true
+    if bad && first.isNone then
+      first := some bits
+  return { h, oddBad, boundBad, first }
+
+/-- The block is cut into 12 chunks evaluated as parallel tasks (the checksum is an order-independent sum). -/
+def erfSweep (b0 n : Nat) : String :=
+  let parts := 12
+  let sz := (n + parts - 1) / parts
+  let tasks := (List.range parts).map fun i =>
+    let lo := i * sz
+    let len := if lo ≥ n then 0 else min sz (n - lo)
+    Task.spawn fun _ => erfSweepChunk (b0 + lo) len
+  let acc := tasks.foldl (fun (a : SweepAcc) t =>
+    let r := t.get
+    { h := a.h + r.h, oddBad := a.oddBad + r.oddBad, boundBad := a.boundBad + r.boundBad,
+      first := match a.first with | some f => some f | none => r.first }) {}
+  let f := match acc.first with
+    | some b => hex8 b
+    | none => "-"
+  ok s!"{natToHex16 acc.h.toNat} {n} {acc.oddBad} {acc.boundBad} {f}"
+
 def c09Step (args : List String) : String :=
   match args with
+  | "erfsweep" :: rest =>
+    withArgs (do let b0 ← pNat; let n ← pNat; pure (b0, n)) rest fun (b0, n) =>
+      if b0 + n > 0x7f800000 then badOp else erfSweep b0 n
   | "beta" :: rest =>
     withArgs (do let a ← pFloat; let b ← pFloat; pure (a, b)) rest fun (a, b) => ok (showFloat (betaFn a b))
   | "betav" :: rest =>
